@@ -23,8 +23,10 @@ TESTS=$(grep -ohE "^func (Test[A-Za-z0-9_]+)" $SRC/$DEMO | awk '{print $2}' | pa
 DIR=$(dirname $TGT)
 cp $SRC/$DEMO $WT/$TGT
 # a demonstration in the client package needs cgo off and the stub overlay delivered with the seed
-EXTRA=""; PRE=""
-if [ -f $SRC/overlay.json ]; then EXTRA="-overlay=$SRC/overlay.json"; PRE="CGO_ENABLED=0 TMPDIR=$WT/.tmp"; mkdir -p $WT/.tmp; fi
+EXTRA=""; PRE="TMPDIR=$WT/.tmp"; mkdir -p $WT/.tmp
+if [ -f $SRC/overlay.json ]; then EXTRA="-overlay=$SRC/overlay.json"; PRE="CGO_ENABLED=0 TMPDIR=$WT/.tmp"; fi
+# a demonstration of a data race needs the race detector (meta.json "demo_race": true, or the notes say so)
+if grep -qs -- "-count=1 -race" $SRC/notes.md || grep -qs '"demo_race": true' $SRC/meta.json; then EXTRA="$EXTRA -race"; fi
 run_demo() { for i in 1 2 3; do $NS "ip link set lo up; $PRE go test -mod=mod -vet=off -count=1 $EXTRA -run '^($TESTS)\$' ./$DIR" > /tmp/seedchk-$ID.demo 2>&1; rc=$?; if grep -q "dependency_monitor_test.go:34\|address already in use" /tmp/seedchk-$ID.demo; then sleep 3; continue; fi; return $rc; done; return $rc; }
 run_demo; WITH=$?
 cp /tmp/seedchk-$ID.demo /tmp/seedchk-$ID.demo.with
